@@ -7,6 +7,8 @@ SOURCE_COMMITS = [
     '1965d0a fix: serve a zero sized chunk over http without underflowing the run counter',
     'd496a83 fix: return no data for a zero sized chunk read from a local archive',
     '1678162 fix: do not overflow the RollSum sums for large hash windows',
+    '0b48bc8 fix: reject a dictionary size whose header region would overflow',
+    'e429ce3 fix: reject chunk descriptors whose archive range does not fit in an offset',
 ]
 NOTES = ("Every check is decided by a SAT solver over the compiled real code within stated bounds (see DESIGN.md); "
          "exit 2 + an INCONCLUSIVE line means time-out / out of memory / vacuous harness / mirror edit not applicable -- never a pass, never a violation. "
@@ -42,7 +44,7 @@ CLAIMED["C04"] = {
 CLAIMED["C15"] = {
     "text": "Post-decode consumers of untrusted fields and the HTTP state machines under a misbehaving server are run on unconstrained symbolic values; Kani turns every reachable panic, arithmetic overflow, out-of-bounds index and unwrap into a solver-decided check, and a 'never an empty chunk' assertion stands for bounded work. Harnesses go through the reader's own validation (chunker_config_from_params, source_order_is_valid): whatever it accepts must run. Rare field values (window 0, bits 33, index == len, size 0) are exactly what a solver finds and sampling does not -- eight defects were found this way and fixed.",
     "design_ref": "DESIGN.md section 4 (C15) and section 5",
-    "note": "Reduced scope: protobuf decoding, Blake2, try_init as a whole (incl. the dictionary-size arithmetic and allocation, read not executed), decompressors and info printing are out of reach. Dev-profile semantics (overflow checks on).",
+    "note": "Reduced scope: protobuf decoding and Blake2 are environment (try_init runs around them: pre-header arithmetic for EVERY dictionary size -- found F14 -- and everything done with the decoded dictionary), the readers' allocation of dictionary-size bytes, decompressors and info printing are out of reach. Dev-profile semantics (overflow checks on).",
     "technique": TECH}
 CLAIMED["C06"] = {
     "text": "chunk_stream step: for every subset of the clone index and every descriptor layout (any offsets/order/gaps) the reader is asked for exactly the descriptors still wanted, each once, in descriptor order, with (offset,size) verbatim, and nothing else; together with the lookup/remove step (a written chunk's entry is gone) a chunk found in a seed is never requested.",
@@ -52,26 +54,30 @@ CLAIMED["C06"] = {
 CLAIMED["C17"] = {
     "text": "Post-decode reader: both magics and nothing else are accepted (all byte strings <= 16 bytes); descriptor offsets/sizes are passed to the readers verbatim in any order with gaps; raw-vs-compressed rule per chunk; the local reader seeks to each chunk's own offset and the HTTP reader opens a new range request whenever the next chunk is not adjacent (steps shared with C07/C08).",
     "design_ref": "DESIGN.md section 4 (C06/C17)",
-    "note": "Reduced scope: protobuf decoding (unknown fields), chunk_data_offset addition in try_init and real decompression are out of reach.",
+    "note": "Reduced scope: protobuf decoding (unknown fields) and the header checksum computation are environment in the try_init harness (descriptors in dictionary order, absolute offset = stored chunk-data offset + relative offset, rebuild order verbatim); real decompression is out of reach.",
     "technique": TECH}
 CLAIMED["C02"] = {
     "text": "Truncated-hash key consistency decided at full width (all 64-byte digests and keys, all lengths): a lookup hits exactly when the truncated hashes agree; index lookup/remove step through the real ChunkIndex; a hit writes the fed chunk's own bytes at the entry's offset, a miss writes nothing -- a seed can change whether bytes come from the archive, never which bytes (given collision freeness).",
     "design_ref": "DESIGN.md section 4 (C02/C13/C05)",
-    "note": "Reduced scope: seed re-chunking/hashing and all CLI stages are not executable; feed's hit path is decomposed (see C13). Model map instead of std HashMap.",
+    "note": "Reduced scope: seed re-chunking/hashing and all CLI stages are not executable; feed is decided compositionally (see C13). Model map instead of std HashMap.",
     "technique": TECH}
 CLAIMED["C13"] = {
-    "text": "Write step decided for all offsets/data: per destination one seek to exactly that offset followed by all of the chunk's bytes, once; lookup-then-write in feed's order: entry removed when written (at most once), unrelated entries untouched; miss path of feed writes nothing.",
+    "text": "Write step decided for all offsets/data: per destination one seek to exactly that offset followed by all of the chunk's bytes, once; feed itself (hit and miss path, over a scripted write loop): the write loop is entered exactly once iff the truncated hashes agree, with all of the entry's offsets and the fed chunk, the entry is removed (so each location is written at most once: a duplicate feed writes nothing), unrelated entries untouched.",
     "design_ref": "DESIGN.md section 4 (C02/C13/C05)",
-    "note": "Reduced scope: CloneOutput::feed's hit path as ONE unit does not get through CBMC (> 28 GB); the real lookup and the real write loop are executed in feed's order by the harness, the four lines of glue are read. In-place stripping / reorder / source-length bound not applicable (C03).",
+    "note": "Reduced scope: CloneOutput::feed over the REAL write loop as one unit does not get through CBMC (nested coroutines); it is decided compositionally: feed's own text over a scripted write loop (c13_feed_glue_*: entered once iff hit, with exactly the entry's offsets and the fed chunk, result handed on, entry gone, duplicate writes nothing), the real write loop on its own, and both real functions in feed's order. In-place stripping and the source-length bound are not executed (see C03).",
     "technique": TECH}
 CLAIMED["C05"] = {
     "text": "Fault step: the k-th seek or write fails, or the k-th write accepts only a prefix (k, prefix symbolic) => write_offset returns Err, never Ok with fewer bytes than the chunk on the output; bytes that did land are contiguous from the destination. All fault points inside the bound are covered by one query.",
     "design_ref": "DESIGN.md section 4 (C02/C13/C05)",
-    "note": "Reduced scope: only 'a run whose write failed or was cut short never reports success' at the write step; the 're-running completes' half is rescan+reorder+fetch and is not applicable.",
+    "note": "Reduced scope: only 'a run whose write failed or was cut short never reports success' -- at the write step, through feed (an error of the write loop is handed on, c13_feed_glue_*_fail) and through the in-place executor on small plans (c03_exec_*_faults); the 're-running completes' half is rescan+reorder+fetch and is not executable.",
     "technique": TECH}
+CLAIMED["C03"] = {
+    "text": "Two components of the in-place update, not the whole: (1) the overlap query the planner uses to find the chunks a move would overwrite is EXACT for every layout of 3 disjoint chunks and every destination range (full 2^40 offsets) -- no reusable chunk a move destroys can go unnoticed; (2) the executor reorder_in_place, run as a whole on one-operation plans (one move; one chunk to two destinations; a read or write fault at a symbolic call) over a file whose every byte is symbolic: every moved chunk's ORIGINAL bytes end at all of its destinations, nothing else is written, moved chunks leave the clone index, a failed read or write fails the run.",
+    "design_ref": "DESIGN.md section 4 (C03)",
+    "note": "Reduced scope, stated plainly: the reorder PLANNER (reorder_ops/build_reorder_ops) and strip_chunks_already_in_place are NOT executed (std containers, sort, Vec::remove at symbolic positions do not get through CBMC); executor plans with two or more operations run out of memory (values that live in the coroutine are not constant-propagated), so the buffered-chunk path and cyclic multi-move plans are outside the claim. Planner scripted, write loop scripted (stores into a mock file), BTreeMap/HashMap models.",
+    "technique": "bounded model checking of the real code (Kani -> CBMC -> SAT): step harness with a fully symbolic layout/query for the overlap lemma; scenario runs (concrete plan, symbolic file contents and fault points) for the executor"}
 NOT_APPLICABLE = {
     "C01": "writer pipeline = tokio runtime + spawn_blocking threads + tokio::fs/tempfile + brotli/zstd/lzma: none of it can be encoded by Kani/CBMC (no threads, no FFI file I/O, compression loops grow with input); the reader-side sub-lemmas are checked under C17/C06/C04 and the tiling half under C09",
-    "C03": "reorder planner/executor are HashMap/HashSet/BTreeMap/sort/Vec::insert code; even with model containers one chunk does not get through symex+SAT (DESIGN.md section 2)",
     "C11": "both writers unreachable (as C01); header::build needs prost encoding + Blake2 over symbolic bytes",
     "C12": "quantifies over thread schedules of a tokio runtime; Kani has no concurrency model",
     "C14": "CLI behaviour against a real file system (open flags, set_len, exit status) -- not symbolic-executable",
